@@ -136,9 +136,11 @@ def make(tname):
             ifs = []
             for i, (kd, s) in enumerate(zip(kinds, sites)):
                 n = h.call(h.getattr(t, 'add_node'), name=f'n{i}', site=s)
-                c = h.call(h.getattr(n, 'add_component'), name=f'nic{i}',
+                # component names are unique within a node only: every node calls its card "nic", so the connected interfaces
+                # of different nodes carry the same name
+                c = h.call(h.getattr(n, 'add_component'), name='nic',
                            model_type=CMT('SharedNIC_ConnectX_6') if kd == 'SharedPort' else CMT('SmartNIC_ConnectX_6'))
-                ifs.append(topo.iface(h, c, f'nic{i}-p1'))
+                ifs.append(topo.iface(h, c, 'nic-p1'))
             kw = {}
             if dsite is not None:
                 kw['site'] = dsite
